@@ -5,31 +5,53 @@ What is modelled (files of /repo/Python/dawgie):
 
 * `db/util/__init__.py`  `encode` : `tempfile.mkstemp` in the staging directory, `pickle.dump`
   of the value into the staged file, `md5sum`/`sha1sum` of the staged file → `(fn, name)`;
-  `move` : `os.path.exists(store/name)`; when it exists `os.unlink(fn)`, otherwise
-  `shutil.move(fn, store/name)`; returns `(name, exists)`.
+  `move` : `os.path.exists(store/name)`; when it exists `os.unlink(fn)`; otherwise
+  `os.makedirs(store/incoming)`, `shutil.move(fn, store/incoming/<basename fn>)`,
+  `os.replace(store/incoming/<basename fn>, store/name)`; returns `(name, exists)`.
 * `db/shelve/comms.py`  `Worker.do`, branch `Func.set` : `move`, then `prime[key] = name`,
   then `_send(exists)`.
 * `db/shelve/model.py`  `Interface._update/_update_msv` : `isnew = not _set_prime(..)`,
   `Task.new_values((name, isnew))`.
 * `db/shelve/__init__.py` `remove` (`del prime[key]`) and `db/tools/purge.py` (unlink every
-  stored file that no prime value names; aborted when the prime table is empty).
+  regular file directly in the store that no prime value names; aborted when the prime table is empty).
 
-One update is a straight-line program of *micro-steps* (`Instr`).  The program itself is NOT
-written here: it is regenerated from the Python source into `Generated/Blob.lean`
+One update is a program of statements (`Instr`) in the vocabulary of the Python source; the
+statements inside `move`'s `if exists: … else: …` carry the branch they belong to.  The program
+itself is NOT written here: it is regenerated from the Python source into `Generated/Blob.lean`
 (`Generated.Blob.program`) on every run, and the theorems of `Props/C07.lean` are proved about
-that regenerated list.  A crash after `k` micro-steps is `List.take k` of the program: whatever
-is on disk (`St`) stays, everything in memory (`Loc`) is lost.
+that regenerated list.
 
-The digest `h : C → N`, the bytes `e` of a freshly created (empty) file are parameters.
-Core Lean only (the driver interprets this file).
+Two configurations (`Cfg.xfs`): the staging directory is on the file system of the store
+(`shutil.move` is one atomic `os.rename`) or on another one (`os.rename` fails with EXDEV and
+`shutil.move` copies — create the destination, write it piecemeal, complete it — then unlinks
+the source).  `expand` turns every `shutil.move` of the program into the micro-steps of the
+configuration; a crash after `k` micro-steps stops the update there: whatever is on disk (`St`)
+stays, everything in memory (`Loc`) is lost.  `os.replace` inside the store directory is atomic
+in both configurations.
+
+Parameters (`Cfg`): the digest `h`, the bytes `e` of a freshly created file, what a partially
+written copy holds (`t body`), the configuration.  Core Lean only (the driver interprets this file).
 -/
 namespace DawgieVerif.Blob
 
-/-- What one branch of `move` does with the staged file. -/
+/-- destination of a `shutil.move` of the staged file -/
+inductive Dst where
+  | incoming   -- `<data_dbs>/incoming/<basename of the staged file>`
+  | store      -- `<data_dbs>/<digest name>`
+deriving Repr, DecidableEq, Inhabited
+
+/-- File-system statements of `move`, and the micro-steps `shutil.move` expands to. -/
 inductive Act where
-  | unlink   -- `os.unlink(fn)` / `os.remove(fn)`
-  | rename   -- `shutil.move(fn, nfn)` / `os.rename` / `os.replace`
-  | keep     -- nothing
+  | unlink             -- `os.unlink(fn)` / `os.remove(fn)`
+  | mkdirs             -- `os.makedirs(<data_dbs>/incoming, exist_ok=True)`
+  | move (d : Dst)     -- `shutil.move(fn, d)` as written in the source
+  | replace            -- `os.replace(<incoming file>, <data_dbs>/<digest name>)`
+  -- what `shutil.move` does, by configuration (never written by the translator):
+  | rename (d : Dst)   -- same file system: `os.rename`
+  | create (d : Dst)   -- other file system: `open(dst, 'wb')`
+  | torn (d : Dst)     --   some of the bytes written
+  | fill (d : Dst)     --   all of the bytes written
+  | dropSrc            --   `os.unlink(src)`
 deriving Repr, DecidableEq, Inhabited
 
 /-- Where `Worker.do` takes the catalogue value from. -/
@@ -38,25 +60,27 @@ inductive Src where
   | requested  -- `request.value[1]`, the digest string computed by the client's `encode`
 deriving Repr, DecidableEq, Inhabited
 
-/-- The micro-steps of one update, in the vocabulary of the Python source. -/
+/-- The statements of one update, in the vocabulary of the Python source. -/
 inductive Instr where
   | mkstemp                           -- `tempfile.mkstemp(dir=data_stg)` : new empty staged file
   | dump                              -- `pickle.dump(value, open(fn,'wb'))`
   | digest                            -- `md5sum`/`sha1sum` of the staged file → `name`
   | probe                             -- `exists = os.path.exists(store/name)`
-  | place (onExists onFresh : Act)    -- `if exists: … else: …` of `move`; returns `(name, exists)`
+  | act (branch : Option Bool) (a : Act)  -- statement of `move`; `some b`: only when `exists = b`
   | record (src : Src)                -- `prime[key] = value`
   | reply (negated : Bool)            -- `_send(exists)` (`negated` : `_send(not exists)`)
   | flag (negated : Bool)             -- `isnew = not reply` (`negated = true`), `new_values` gets it
 deriving Repr, DecidableEq, Inhabited
 
-/-- Disk state: staging directory, store directory, prime table.  `fresh` stands for
-    `mkstemp`'s guarantee that the name it returns does not exist yet. -/
+/-- Disk state: staging directory, `<store>/incoming`, store directory, prime table.  `fresh` stands
+    for `mkstemp`'s guarantee that the name it returns does not exist yet. -/
 structure St (K N C : Type) where
   stage : List (Nat × C) := []
+  incoming : List (Nat × C) := []
   store : List (N × C) := []
   prime : List (K × N) := []
   fresh : Nat := 0
+  dir : Bool := false           -- `<store>/incoming` exists
 deriving Repr
 
 /-- In-memory locals of the update in flight (client `encode` + server `move`/`do`). -/
@@ -64,10 +88,16 @@ structure Loc (N : Type) where
   fn : Option Nat := none      -- staged file name
   name : Option N := none      -- digest string
   ex : Option Bool := none     -- `exists`
-  val : Option N := none       -- first component of what `move` returned
   out : Option Bool := none    -- what `_send` put on the wire
   flg : Option Bool := none    -- `isnew` as handed to `Task.new_values`
 deriving Repr
+
+/-- Parameters: external behaviour and configuration. -/
+structure Cfg (N C : Type) where
+  h : C → N          -- digest of file content (md5sum, sha1sum)
+  e : C              -- content of a freshly created file
+  t : C → C          -- content of a partially written copy of a file
+  xfs : Bool         -- the staging directory is on another file system than the store
 
 section
 variable {K N C : Type} [DecidableEq K] [DecidableEq N]
@@ -86,23 +116,56 @@ def rm {A B : Type} [DecidableEq A] (d : List (A × B)) (f : A) : List (A × B) 
 def put {A B : Type} [DecidableEq A] (d : List (A × B)) (f : A) (b : B) : List (A × B) :=
   (f, b) :: rm d f
 
-/-- one branch of `move`; `none` = the Python raises (`FileNotFoundError`) -/
-def act (a : Act) (s : St K N C) (f : Nat) (n : N) : Option (St K N C) :=
-  match a with
-  | .keep => some s
-  | .unlink => match s.stage.lookup f with
+/-- what `shutil.move` does in the configuration -/
+def expandAct (xfs : Bool) : Act → List Act
+  | .move d => if xfs then [.create d, .torn d, .fill d, .dropSrc] else [.rename d]
+  | a => [a]
+
+def expand (xfs : Bool) : List Instr → List Instr
+  | [] => []
+  | .act g a :: is => (expandAct xfs a).map (Instr.act g) ++ expand xfs is
+  | i :: is => i :: expand xfs is
+
+/-- write `body` to the destination `d` (file `f` of incoming, or the digest name in the store);
+    `none`: the directory `<store>/incoming` does not exist (`FileNotFoundError`) -/
+def writeDst (s : St K N C) (d : Dst) (f : Nat) (n : N) (body : C) : Option (St K N C) :=
+  match d with
+  | .incoming => if s.dir then some { s with incoming := put s.incoming f body } else none
+  | .store => some { s with store := put s.store n body }
+
+/-- one file-system statement of `move`; `none` = the Python raises -/
+def doAct (cfg : Cfg N C) (s : St K N C) (f : Nat) (n : N) : Act → Option (St K N C)
+  | .unlink | .dropSrc => match s.stage.lookup f with
     | none => none
     | some _ => some { s with stage := rm s.stage f }
-  | .rename => match s.stage.lookup f with
+  | .mkdirs => some { s with dir := true }
+  | .move d | .rename d => match s.stage.lookup f with
     | none => none
-    | some body => some { s with stage := rm s.stage f, store := put s.store n body }
+    | some body => (writeDst s d f n body).map fun s' => { s' with stage := rm s'.stage f }
+  | .create d => match s.stage.lookup f with
+    | none => none
+    | some _ => writeDst s d f n cfg.e
+  | .torn d => match s.stage.lookup f with
+    | none => none
+    | some body => writeDst s d f n (cfg.t body)
+  | .fill d => match s.stage.lookup f with
+    | none => none
+    | some body => writeDst s d f n body
+  | .replace => match s.incoming.lookup f with
+    | none => none
+    | some body => some { s with incoming := rm s.incoming f, store := put s.store n body }
+
+/-- the statement belongs to the branch of `move` that is not taken -/
+def skips (l : Loc N) : Instr → Bool
+  | .act (some b) _ => l.ex == some (!b)
+  | _ => false
 
 /-- One micro-step.  `none` = an exception propagates (unbound local, missing file): the
     update is abandoned where it stands, nothing is reported. -/
-def exec (h : C → N) (e : C) (key : K) (c : C) (s : St K N C) (l : Loc N) :
+def exec (cfg : Cfg N C) (key : K) (c : C) (s : St K N C) (l : Loc N) :
     Instr → Option (St K N C × Loc N)
   | .mkstemp =>
-    some ({ s with stage := (s.fresh, e) :: s.stage, fresh := s.fresh + 1 }, { l with fn := some s.fresh })
+    some ({ s with stage := (s.fresh, cfg.e) :: s.stage, fresh := s.fresh + 1 }, { l with fn := some s.fresh })
   | .dump => match l.fn with
     | none => none
     | some f => some ({ s with stage := put s.stage f c }, l)
@@ -110,16 +173,17 @@ def exec (h : C → N) (e : C) (key : K) (c : C) (s : St K N C) (l : Loc N) :
     | none => none
     | some f => match s.stage.lookup f with
       | none => none
-      | some body => some (s, { l with name := some (h body) })
+      | some body => some (s, { l with name := some (cfg.h body) })
   | .probe => match l.name with
     | none => none
     | some n => some (s, { l with ex := some (decide (n ∈ names s)) })
-  | .place a b => match l.fn, l.name, l.ex with
-    | some f, some n, some ex => match act (if ex then a else b) s f n with
-      | none => none
-      | some s' => some (s', { l with val := some n })
+  | .act g a => match l.fn, l.name, l.ex with
+    | some f, some n, some ex =>
+      if g = none ∨ g = some ex then (doAct cfg s f n a).map fun s' => (s', l) else none
     | _, _, _ => none
-  | .record src => match (match src with | .moved => l.val | .requested => l.name) with
+  | .record src => match (match src with
+      | .moved => (match l.ex with | some _ => l.name | none => none)
+      | .requested => l.name) with
     | none => none
     | some v => some ({ s with prime := put s.prime key v }, l)
   | .reply neg => match l.ex with
@@ -129,21 +193,26 @@ def exec (h : C → N) (e : C) (key : K) (c : C) (s : St K N C) (l : Loc N) :
     | none => none
     | some o => some (s, { l with flg := some (o != neg) })
 
-/-- run a list of micro-steps; the `Bool` says whether an exception stopped it -/
-def runInstrs (h : C → N) (e : C) (key : K) (c : C) :
-    List Instr → St K N C → Loc N → St K N C × Loc N × Bool
-  | [], s, l => (s, l, false)
-  | i :: is, s, l => match exec h e key c s l i with
-    | none => (s, l, true)
-    | some (s', l') => runInstrs h e key c is s' l'
+/-- run micro-steps under a crash budget; statements of the branch not taken cost nothing;
+    the `Bool` says whether the end of the program was reached -/
+def runB (cfg : Cfg N C) (key : K) (c : C) :
+    List Instr → Nat → St K N C → Loc N → St K N C × Loc N × Bool
+  | [], _, s, l => (s, l, true)
+  | i :: is, b, s, l =>
+    if skips l i then runB cfg key c is b s l
+    else match b with
+      | 0 => (s, l, false)
+      | b + 1 => match exec cfg key c s l i with
+        | none => (s, l, false)
+        | some (s', l') => runB cfg key c is b s' l'
 
-/-- One update with a crash budget: the first `budget` micro-steps of `prog` run, then the
-    process dies (`budget ≥ prog.length`: the update completes).  Result: the disk state and the
+/-- One update with a crash budget: `budget` micro-steps of the expanded program run, then the
+    process dies (a budget that reaches the end: the update completes).  Result: the disk state and the
     novelty flag handed to `Task.new_values` (`none` when the update did not get that far). -/
-def runUpd (h : C → N) (e : C) (prog : List Instr) (key : K) (c : C) (budget : Nat)
+def runUpd (cfg : Cfg N C) (prog : List Instr) (key : K) (c : C) (budget : Nat)
     (s : St K N C) : St K N C × Option Bool :=
-  let r := runInstrs h e key c (prog.take budget) s {}
-  (r.1, if prog.length ≤ budget then r.2.1.flg else none)
+  let r := runB cfg key c (expand cfg.xfs prog) budget s {}
+  (r.1, if r.2.2 then r.2.1.flg else none)
 
 /-- Operations of a history. -/
 inductive Op (K N C : Type) where
@@ -158,25 +227,26 @@ def purge (s : St K N C) (visit : List N) : St K N C :=
     let keep : N × C → Bool := fun b => decide (b.1 ∈ primeValues s ∨ b.1 ∉ visit)
     { s with store := s.store.filter keep }
 
-def apply (h : C → N) (e : C) (prog : List Instr) (s : St K N C) :
+def apply (cfg : Cfg N C) (prog : List Instr) (s : St K N C) :
     Op K N C → St K N C × Option Bool
-  | .upd key c b => runUpd h e prog key c b s
+  | .upd key c b => runUpd cfg prog key c b s
   | .del key => ({ s with prime := rm s.prime key }, none)
   | .purge visit => (purge s visit, none)
 
 /-- A history: disk state at its end and, per operation, the novelty flag reported. -/
-def run (h : C → N) (e : C) (prog : List Instr) :
+def run (cfg : Cfg N C) (prog : List Instr) :
     St K N C → List (Op K N C) → St K N C × List (Option Bool)
   | s, [] => (s, [])
   | s, op :: ops =>
-    let r := apply h e prog s op
-    let t := run h e prog r.1 ops
+    let r := apply cfg prog s op
+    let t := run cfg prog r.1 ops
     (t.1, r.2 :: t.2)
 
-/-- the operation is an update that was cut short by a crash -/
-def Op.crashed (prog : List Instr) : Op K N C → Bool
-  | .upd _ _ b => decide (b < prog.length)
-  | _ => false
+/-- number of updates of a history that reported nothing (cut short by a crash) -/
+def silent : List (Op K N C) → List (Option Bool) → Nat
+  | .upd _ _ _ :: ops, none :: fl => silent ops fl + 1
+  | _ :: ops, _ :: fl => silent ops fl
+  | _, _ => 0
 
 end
 end DawgieVerif.Blob
